@@ -97,6 +97,8 @@ struct Task {
   uint64_t late_until;
   int prio;
   size_t fault_head;  // index into per-task fault order
+  int cond_signalled;
+  int timed_wait;
 };
 
 enum SKind : int { SK_ATOMIC = 0, SK_MUTEX = 1, SK_GUARD = 2, SK_ONCE = 3 };
@@ -215,7 +217,9 @@ mutex_fn_t real_mutex_lock, real_mutex_unlock, real_mutex_trylock;
 once_t real_once;
 cond_wait_t real_cond_wait;
 cond_timedwait_t real_cond_timedwait;
-rwlock_fn_t real_rdlock, real_wrlock, real_rwunlock;
+rwlock_fn_t real_rdlock, real_wrlock, real_rwunlock, real_tryrdlock, real_trywrlock;
+typedef int (*cond_fn_t)(pthread_cond_t*);
+cond_fn_t real_cond_signal, real_cond_broadcast;
 sem_fn_t real_sem_wait;
 nanosleep_t real_nanosleep;
 usleep_t real_usleep;
@@ -271,6 +275,18 @@ bool release_held() {
     Task& t = g.tasks[i];
     if (t.state == T_STALLED) { t.state = T_RUN; any = true; }
     if (t.state == T_RUN && t.late_until > g.step) { t.late_until = 0; any = true; }
+  }
+  if (!any) {
+    // a timed condition wait times out when nothing else in the system can make progress
+    for (int i = 0; i < g.ntasks; ++i) {
+      Task& t = g.tasks[i];
+      if (t.state == T_BLOCKED && t.timed_wait) {
+        t.state = T_RUN;
+        t.blocked_on = 0;
+        any = true;
+        break;
+      }
+    }
   }
   return any;
 }
@@ -824,6 +840,10 @@ void resolve_real() {
   real_rdlock = (rwlock_fn_t)dlsym(RTLD_NEXT, "pthread_rwlock_rdlock");
   real_wrlock = (rwlock_fn_t)dlsym(RTLD_NEXT, "pthread_rwlock_wrlock");
   real_rwunlock = (rwlock_fn_t)dlsym(RTLD_NEXT, "pthread_rwlock_unlock");
+  real_tryrdlock = (rwlock_fn_t)dlsym(RTLD_NEXT, "pthread_rwlock_tryrdlock");
+  real_trywrlock = (rwlock_fn_t)dlsym(RTLD_NEXT, "pthread_rwlock_trywrlock");
+  real_cond_signal = (cond_fn_t)dlsym(RTLD_NEXT, "pthread_cond_signal");
+  real_cond_broadcast = (cond_fn_t)dlsym(RTLD_NEXT, "pthread_cond_broadcast");
   real_sem_wait = (sem_fn_t)dlsym(RTLD_NEXT, "sem_wait");
   real_nanosleep = (nanosleep_t)dlsym(RTLD_NEXT, "nanosleep");
   real_usleep = (usleep_t)dlsym(RTLD_NEXT, "usleep");
@@ -1399,29 +1419,161 @@ int pthread_create(pthread_t* th, const pthread_attr_t* at, void* (*fn)(void*), 
   return real_pthread_create(th, at, fn, arg);
 }
 
+// ---- condition variables: wait releases the (modelled) mutex and blocks until signalled ----
+static int cond_wait_model(Task* t, pthread_cond_t* c, pthread_mutex_t* m, bool timed, uint32_t pc) {
+  t->in_rt = 1;
+  yield_point(t, EV_MUTEX, 4, pc);
+  SyncObj* ms = sync_lookup((uintptr_t)m, SK_MUTEX, true);
+  SyncObj* cs = sync_lookup((uintptr_t)c, SK_ATOMIC, true);
+  // release the mutex
+  if (ms->owner == t->id) {
+    ms->owner = -1;
+    ms->recursion = 0;
+    release_store(t, ms);
+    wake_waiters((uintptr_t)m);
+  }
+  // wait for a signal; a timed wait is released (ETIMEDOUT) when nothing else can run
+  t->cond_signalled = 0;
+  t->timed_wait = timed;
+  block_on(t, (uintptr_t)c);
+  int rc = t->cond_signalled ? 0 : ETIMEDOUT;
+  t->timed_wait = 0;
+  acquire(t, cs);
+  // re-acquire the mutex
+  for (;;) {
+    if (ms->owner < 0) {
+      ms->owner = t->id;
+      ms->recursion = 1;
+      acquire(t, ms);
+      break;
+    }
+    g.res->mutex_block++;
+    block_on(t, (uintptr_t)m);
+  }
+  t->in_rt = 0;
+  return rc;
+}
+static int cond_signal_model(Task* t, pthread_cond_t* c, bool all, uint32_t pc) {
+  t->in_rt = 1;
+  yield_point(t, EV_MUTEX, 5, pc);
+  SyncObj* cs = sync_lookup((uintptr_t)c, SK_ATOMIC, true);
+  release_join(t, cs);
+  for (int i = 0; i < g.ntasks; ++i) {
+    Task& w = g.tasks[i];
+    if (w.state == T_BLOCKED && w.blocked_on == (uintptr_t)c) {
+      w.state = T_RUN;
+      w.blocked_on = 0;
+      w.cond_signalled = 1;
+      if (!all) break;
+    }
+  }
+  t->in_rt = 0;
+  return 0;
+}
+
 int pthread_cond_wait(pthread_cond_t* c, pthread_mutex_t* m) {
   Task* t = live_task();
-  if (t) unsupported(t, "pthread_cond_wait");
+  if (t) return cond_wait_model(t, c, m, false, PC());
   if (!real_cond_wait) resolve_real();
   return real_cond_wait(c, m);
 }
 int pthread_cond_timedwait(pthread_cond_t* c, pthread_mutex_t* m, const struct timespec* ts) {
   Task* t = live_task();
-  if (t) unsupported(t, "pthread_cond_timedwait");
+  if (t) return cond_wait_model(t, c, m, true, PC());
   if (!real_cond_timedwait) resolve_real();
   return real_cond_timedwait(c, m, ts);
 }
+int pthread_cond_signal(pthread_cond_t* c) {
+  Task* t = live_task();
+  if (t) return cond_signal_model(t, c, false, PC());
+  if (!real_cond_signal) resolve_real();
+  return real_cond_signal(c);
+}
+int pthread_cond_broadcast(pthread_cond_t* c) {
+  Task* t = live_task();
+  if (t) return cond_signal_model(t, c, true, PC());
+  if (!real_cond_broadcast) resolve_real();
+  return real_cond_broadcast(c);
+}
+
+// ---- reader/writer locks: `recursion` counts readers, `owner` is the writer; the readers' release
+// clock lives in a second sync object keyed by address+1 ----
+static int rwlock_model(Task* t, pthread_rwlock_t* l, bool write, bool try_only, uint32_t pc) {
+  t->in_rt = 1;
+  yield_point(t, EV_MUTEX, write ? 6 : 7, pc);
+  SyncObj* ws = sync_lookup((uintptr_t)l, SK_MUTEX, true);
+  SyncObj* rs = sync_lookup((uintptr_t)l + 1, SK_MUTEX, true);
+  for (;;) {
+    bool free_for_me = write ? (ws->owner < 0 && ws->recursion == 0) : (ws->owner < 0);
+    if (free_for_me) {
+      if (write) {
+        ws->owner = t->id;
+        acquire(t, ws);
+        acquire(t, rs);
+      } else {
+        ws->recursion++;
+        acquire(t, ws);
+      }
+      break;
+    }
+    if (ws->owner == t->id) {
+      g.res->deadlock = 1;
+      end_run_abnormally();
+    }
+    if (try_only) {
+      t->in_rt = 0;
+      return EBUSY;
+    }
+    g.res->mutex_block++;
+    block_on(t, (uintptr_t)l);
+  }
+  t->in_rt = 0;
+  return 0;
+}
 int pthread_rwlock_rdlock(pthread_rwlock_t* l) {
   Task* t = live_task();
-  if (t) unsupported(t, "pthread_rwlock_rdlock");
+  if (t) return rwlock_model(t, l, false, false, PC());
   if (!real_rdlock) resolve_real();
   return real_rdlock(l);
 }
 int pthread_rwlock_wrlock(pthread_rwlock_t* l) {
   Task* t = live_task();
-  if (t) unsupported(t, "pthread_rwlock_wrlock");
+  if (t) return rwlock_model(t, l, true, false, PC());
   if (!real_wrlock) resolve_real();
   return real_wrlock(l);
+}
+int pthread_rwlock_tryrdlock(pthread_rwlock_t* l) {
+  Task* t = live_task();
+  if (t) return rwlock_model(t, l, false, true, PC());
+  if (!real_tryrdlock) resolve_real();
+  return real_tryrdlock(l);
+}
+int pthread_rwlock_trywrlock(pthread_rwlock_t* l) {
+  Task* t = live_task();
+  if (t) return rwlock_model(t, l, true, true, PC());
+  if (!real_trywrlock) resolve_real();
+  return real_trywrlock(l);
+}
+int pthread_rwlock_unlock(pthread_rwlock_t* l) {
+  Task* t = live_task();
+  if (!t) {
+    if (!real_rwunlock) resolve_real();
+    return real_rwunlock(l);
+  }
+  t->in_rt = 1;
+  yield_point(t, EV_MUTEX, 8, PC());
+  SyncObj* ws = sync_lookup((uintptr_t)l, SK_MUTEX, true);
+  SyncObj* rs = sync_lookup((uintptr_t)l + 1, SK_MUTEX, true);
+  if (ws->owner == t->id) {
+    ws->owner = -1;
+    release_store(t, ws);
+  } else if (ws->recursion > 0) {
+    ws->recursion--;
+    release_join(t, rs);
+  }
+  wake_waiters((uintptr_t)l);
+  t->in_rt = 0;
+  return 0;
 }
 int sem_wait(sem_t* s) {
   Task* t = live_task();
